@@ -6,6 +6,7 @@ import (
 	"math/rand"
 	"os"
 	"os/exec"
+	"sort"
 	"strings"
 	"sync"
 
@@ -380,34 +381,57 @@ func c19Fixed(c *ev.Ctx) {
 		`return [[1, 2], {"a": 1}][0][{"x": 1}];`,
 		`return √[1, 2];`,
 		`return -{"a": [1]};`,
+		"return {1: \"a\\nb\", 1: \"a\\\\nb\"};",
+		"return {1: [\"a\", \"b\"], 1: [\"a\\\", \\\"b\"]};",
+		"x = {\"a\\nb\": 1, \"a\\\\nb\": 1}; return keys(x);",
+	}
+	// literals whose texts differ only in how a character is escaped, as duplicate keys'
+	// values and as keys: the compiler orders pairs by their printed text
+	{
+		contents := []string{"a\nb", "a\\nb", "a\", \"b", "a", "b", "a\tb", "a\\tb", "\"", "\\", "\\\"", "a, b", "a\rb", "a\\rb"}
+		forms := []string{"%s", "[%s]", "{\"k\": %s}", "[%s, \"b\"]", "%s + \"\""}
+		for fi, f := range forms {
+			for i := range contents {
+				for j := range contents {
+					if i == j || (i+j+fi)%3 != 0 {
+						continue
+					}
+					a, b := fmt.Sprintf(f, gast.EncodeString(contents[i], '"', nil)), fmt.Sprintf(f, gast.EncodeString(contents[j], '"', nil))
+					cases = append(cases, "return {1: "+a+", 1: "+b+"};")
+					if fi == 0 {
+						cases = append(cases, "x = {"+a+": 1, "+b+": 2}; return [keys(x), x];")
+					}
+				}
+			}
+		}
 	}
 	for i, s := range cases {
 		id := fmt.Sprintf("fixed/%d", i)
 		if !c.Want(id) {
 			continue
 		}
-		seen := map[string]bool{}
-		for k := 0; k < 60; k++ {
-			evr, err := eng.New(s, eng.Options{NoOptimize: k%2 == 0, NoHook: true})
-			if err != nil {
-				seen["prepare error"] = true
-				continue
-			}
-			o := evr.Exec(nil)
-			seen[evr.ProgramDump()+o.Desc()+" "+errText(o.Err)] = true
-		}
 		// optimised and unoptimised dumps may differ from each other: compare per setting
-		variants := 0
-		for range seen {
-			variants++
-		}
 		c.Case(s, true)
-		if variants > 2 {
-			var list []string
-			for k := range seen {
-				list = append(list, clip(k[strings.LastIndex(k, "\n")+1:], 120))
+		for _, noOpt := range []bool{false, true} {
+			seen := map[string]bool{}
+			for k := 0; k < 40; k++ {
+				evr, err := eng.New(s, eng.Options{NoOptimize: noOpt, NoHook: true})
+				if err != nil {
+					seen["prepare error: "+err.Error()] = true
+					continue
+				}
+				o := evr.Exec(nil)
+				seen[evr.ProgramDump()+o.Desc()+" "+errText(o.Err)] = true
 			}
-			c.Violation(id, "fixed script not deterministic", map[string]interface{}{"summary": fmt.Sprintf("%s gives %d different (program, result) pairs over 60 preparations: %v", s, variants, list), "script": s})
+			if len(seen) > 1 {
+				var list []string
+				for k := range seen {
+					list = append(list, clip(k[strings.LastIndex(k, "\n")+1:], 120))
+				}
+				sort.Strings(list)
+				c.Violation(id, "fixed script not deterministic", map[string]interface{}{"summary": fmt.Sprintf("%s (noopt=%v) gives %d different (program, result) pairs over 40 preparations: %v", s, noOpt, len(seen), list), "script": s})
+				break
+			}
 		}
 	}
 }
